@@ -53,10 +53,11 @@ theorem getters_eq_bound (hM : Lawful M) (hp : M.pubValid = false) (ops : List (
   exact funext h
 
 /-- … and those objects are the accepted rules of the latest load **up to the fields the module's own equality
-    ignores** (`M.canon`: the ID; for hotspot also `BurstCount` under Throttling / `MaxQueueingTimeMs` under Reject):
+    ignores** (`M.sim`: the ID; hotspot also `BurstCount` under Throttling / `MaxQueueingTimeMs` under Reject; flow and
+    breaker a `Threshold` closer than `Float64Equals`' 1e-8):
     a controller kept by `calculateReuseIndexFor` stays bound to the old object -/
 theorem getters_eq_enforced (hM : Lawful M) (hp : M.pubValid = false) (ops : List (Op R)) (k : String) :
-    (getRes (run M ops) k).map M.canon = ((run M ops).enf k).map M.canon := by
+    List.Forall₂ (fun a b => M.sim a b = true) (getRes (run M ops) k) ((run M ops).enf k) := by
   rw [(getters_eq_bound hM hp ops).1 k]; exact (inv_run hM ops).bound k
 
 /-- where nothing is reused (isolation: the rule map holds the rules themselves) the getters are exact -/
@@ -102,14 +103,14 @@ theorem controllers_distinct (ops : List (Op R)) (k : String) :
 theorem controllers_count (hM : Lawful M) (ops : List (Op R)) (k : String) :
     ((runC M ops).2.ctrl k).length = ((run M ops).enf k).length := by
   have h1 := congrArg List.length (controllers_distinct (M := M) ops k).2
-  have h2 := congrArg List.length ((inv_run hM ops).bound k)
-  simp only [List.length_map] at h1 h2
+  have h2 := ((inv_run hM ops).bound k).length_eq
+  simp only [List.length_map] at h1
   omega
 
 /-- pinned tree: a circuit-breaker rule with an unregistered strategy passes `IsValidRule`, is returned by both
     getters, and no breaker exists for it; loaded through the per-resource path it is *not* returned -/
 theorem cb_getter_reports_unbuilt_witness :
-    let r : CbRule := { id := "", res := "c", strategy := 3, retryMs := 1000, minReq := 1, statMs := 1000, buckets := 0, maxRt := 0, th2 := 0, probe := 0 }
+    let r : CbRule := { id := "", res := "c", strategy := 3, retryMs := 1000, minReq := 1, statMs := 1000, buckets := 0, maxRt := 0, th := 0 * thQ, probe := 0 }
     let s := (loadAll cbMod MState.init [some r]).1
     let s' := (loadRes cbMod MState.init "c" [some r]).1
     getRes s "c" = [r] ∧ s.enf "c" = [] ∧ getRes s' "c" = [] := by decide
@@ -147,12 +148,18 @@ theorem both_paths_agree (hM : Lawful M) (ops : List (Op R)) (rules : List (Opti
     (run M (ops ++ [.loadRes res (proj M res rules)])).enf res = (run M (ops ++ [.loadAll rules])).enf res := by
   rw [resource_load_replaces_resource hM ops res h, whole_load_replaces_everything hM]
 
-/-- … and, where the getters read the controllers, the same rules are reported (up to `M.canon`, see above) -/
+/-- … and, where the getters read the controllers, what they report after either path is `sim`-related to that same list -/
 theorem both_paths_agree_getters (hM : Lawful M) (hp : M.pubValid = false) (ops : List (Op R)) (rules : List (Option R))
     (res : String) (h : res ≠ "") :
-    (getRes (run M (ops ++ [.loadRes res (proj M res rules)])) res).map M.canon =
-    (getRes (run M (ops ++ [.loadAll rules])) res).map M.canon := by
-  rw [getters_eq_enforced hM hp, getters_eq_enforced hM hp, both_paths_agree hM ops rules res h]
+    List.Forall₂ (fun a b => M.sim a b = true) (getRes (run M (ops ++ [.loadRes res (proj M res rules)])) res)
+      (buildList M res (proj M res rules)) ∧
+    List.Forall₂ (fun a b => M.sim a b = true) (getRes (run M (ops ++ [.loadAll rules])) res)
+      (buildList M res (proj M res rules)) := by
+  have h1 := getters_eq_enforced hM hp (ops ++ [.loadRes res (proj M res rules)]) res
+  have h2 := getters_eq_enforced hM hp (ops ++ [.loadAll rules]) res
+  rw [resource_load_replaces_resource hM ops res h] at h1
+  rw [whole_load_replaces_everything hM] at h2
+  exact ⟨h1, h2⟩
 
 /-- **loading never panics** (every element may be nil; after 9992752 the grouping loops skip nil) -/
 theorem never_panics (s : MState R) (op : Op R) : (step M s op).2 ≠ .panic := by
@@ -218,7 +225,7 @@ end map
 /-- pinned tree: identical reload of a warm-up rule without cold factor / a hotspot rule without specific items
     reports "changed" (the constructor normalised the cached object) -/
 theorem normalised_reload_witness :
-    let w : FlowRule := { id := "", res := "f", tcs := 1, cb := 0, th2 := 20, rel := 0, ref := "", maxQ := 0, wuPeriod := 10, wuCf := 0,
+    let w : FlowRule := { id := "", res := "f", tcs := 1, cb := 0, th := 20 * thQ, rel := 0, ref := "", maxQ := 0, wuPeriod := 10, wuCf := 0,
                           statMs := 0, lowMem := 0, highMem := 0, memLow := 0, memHigh := 0 }
     let h : HotRule := { id := "", res := "h", metric := 1, cb := 0, pidx := 0, pkey := "", th := 3, maxQ := 0, burst := 0, dur := 1, cap := 0, items := 0 }
     (loadAll (flowMod 0) (loadAll (flowMod 0) MState.init [some w]).1 [some w]).2 = .changed ∧
@@ -232,7 +239,7 @@ theorem empty_resource_reload_witness :
 
 theorem identical_reload_statement_fails : ¬ identical_reload_unchanged_statement (flowMod 0) := by
   intro h
-  have := h.1 [] [some { id := "", res := "f", tcs := 1, cb := 0, th2 := 20, rel := 0, ref := "", maxQ := 0, wuPeriod := 10, wuCf := 0,
+  have := h.1 [] [some { id := "", res := "f", tcs := 1, cb := 0, th := 20 * thQ, rel := 0, ref := "", maxQ := 0, wuPeriod := 10, wuCf := 0,
                          statMs := 0, lowMem := 0, highMem := 0, memLow := 0, memHigh := 0 }]
   revert this
   decide
@@ -257,26 +264,38 @@ theorem iso_getters (ops : List (Op IsoRule)) (k : String) :
     getRes (run isoMod ops) k = (run isoMod ops).enf k :=
   getters_eq_enforced_of_no_reuse iso_lawful rfl (fun _ _ => rfl) ops k
 theorem flow_getters (tm : Int) (ops : List (Op FlowRule)) (k : String) :
-    (getRes (run (flowMod tm) ops) k).map flowCanon = ((run (flowMod tm) ops).enf k).map flowCanon :=
+    List.Forall₂ (fun a b => flowSim a b = true) (getRes (run (flowMod tm) ops) k) ((run (flowMod tm) ops).enf k) :=
   getters_eq_enforced (flow_lawful tm) rfl ops k
 theorem hot_getters (ops : List (Op HotRule)) (k : String) :
-    (getRes (run hotMod ops) k).map hotCanon = ((run hotMod ops).enf k).map hotCanon :=
-  getters_eq_enforced hot_lawful rfl ops k
+    List.Forall₂ (fun a b => hotCanon a = hotCanon b) (getRes (run hotMod ops) k) ((run hotMod ops).enf k) :=
+  (getters_eq_enforced hot_lawful rfl ops k).imp (fun h => by simpa [hotMod] using h)
 
 /-- pinned tree (`stale-equal-rule`): reloading a rule that differs only in what the module's equality ignores keeps
     the old controller, and the getter keeps returning the OLD object — old ID (flow, hotspot), old
     `MaxQueueingTimeMs` of a Reject rule (hotspot) -/
 theorem stale_equal_rule_witness :
-    let f : FlowRule := { id := "a", res := "f", tcs := 0, cb := 0, th2 := 2, rel := 0, ref := "", maxQ := 0, wuPeriod := 0, wuCf := 0,
+    let f : FlowRule := { id := "a", res := "f", tcs := 0, cb := 0, th := 2 * thQ, rel := 0, ref := "", maxQ := 0, wuPeriod := 0, wuCf := 0,
                           statMs := 0, lowMem := 0, highMem := 0, memLow := 0, memHigh := 0 }
     let h : HotRule := { id := "", res := "h", metric := 1, cb := 0, pidx := 0, pkey := "", th := 3, maxQ := 0, burst := 0, dur := 1, cap := 0, items := 1 }
     getRes (run (flowMod 0) [.loadAll [some f], .loadAll [some { f with id := "b" }]]) "f" = [f] ∧
     (run (flowMod 0) [.loadAll [some f], .loadAll [some { f with id := "b" }]]).enf "f" = [{ f with id := "b" }] ∧
     getRes (run hotMod [.loadRes "h" [some h], .loadRes "h" [some { h with maxQ := 7 }]]) "h" = [h] := by decide
 
+/-- pinned tree (`stale-equal-rule`, threshold variant): `isEqualsTo` compares `Threshold` with `Float64Equals` (1e-8).  A reload that
+    moves a threshold by less keeps the old controller: flow keeps reporting (and enforcing) the old value; an error-count
+    breaker built for `2 - 2^-40` (uint64 → 1) stays in force when `2` is loaded, and one failed request still opens it -/
+theorem stale_threshold_witness :
+    let f : FlowRule := { id := "", res := "f", tcs := 0, cb := 0, th := 3 * thQ, rel := 0, ref := "", maxQ := 0, wuPeriod := 0, wuCf := 0,
+                          statMs := 0, lowMem := 0, highMem := 0, memLow := 0, memHigh := 0 }
+    let c : CbRule := { id := "", res := "c", strategy := 2, retryMs := 1000, minReq := 1, statMs := 1000, buckets := 0, maxRt := 0,
+                        th := 2 * thQ - 2 ^ 20, probe := 0 }
+    getRes (run (flowMod 0) [.loadAll [some f], .loadAll [some { f with th := 3 * thQ - 2 ^ 20 }]]) "f" = [f] ∧
+    (run cbMod [.loadAll [some c], .loadAll [some { c with th := 2 * thQ }]]).bound "c" = [c] ∧
+    cbProbe [c] = true ∧ cbProbe [{ c with th := 2 * thQ }] = false := by decide
+
 /-- the history of the witness: the same flow rule loaded twice, only the ID differs -/
 def staleIdOps : List (Op FlowRule) :=
-  let f : FlowRule := { id := "a", res := "f", tcs := 0, cb := 0, th2 := 2, rel := 0, ref := "", maxQ := 0, wuPeriod := 0, wuCf := 0,
+  let f : FlowRule := { id := "a", res := "f", tcs := 0, cb := 0, th := 2 * thQ, rel := 0, ref := "", maxQ := 0, wuPeriod := 0, wuCf := 0,
                         statMs := 0, lowMem := 0, highMem := 0, memLow := 0, memHigh := 0 }
   [.loadAll [some f], .loadAll [some { f with id := "b" }]]
 
@@ -331,7 +350,7 @@ def out_enforced_eq_valid_latest_statement : Prop :=
 
 /-- pinned tree: a refused per-resource load leaves the previous rule in force (and in `GetRules`) -/
 theorem outlier_invalid_keeps_old_witness :
-    let c : CbRule := { id := "", res := "o", strategy := 2, retryMs := 1000, minReq := 1, statMs := 1000, buckets := 0, maxRt := 0, th2 := 2, probe := 0 }
+    let c : CbRule := { id := "", res := "o", strategy := 2, retryMs := 1000, minReq := 1, statMs := 1000, buckets := 0, maxRt := 0, th := 2 * thQ, probe := 0 }
     let good : OutRule := { pct2 := 1, recMs := 0, inner := some c }
     let bad : OutRule := { pct2 := 3, recMs := 0, inner := some c }
     let ops := [OOp.loadRes "o" (some good), OOp.loadRes "o" (some bad)]
@@ -340,8 +359,8 @@ theorem outlier_invalid_keeps_old_witness :
 
 theorem out_statement_fails : ¬ out_enforced_eq_valid_latest_statement := by
   intro h
-  have := h [OOp.loadRes "o" (some { pct2 := 1, recMs := 0, inner := some { id := "", res := "o", strategy := 2, retryMs := 1000, minReq := 1, statMs := 1000, buckets := 0, maxRt := 0, th2 := 2, probe := 0 } }),
-             OOp.loadRes "o" (some { pct2 := 3, recMs := 0, inner := some { id := "", res := "o", strategy := 2, retryMs := 1000, minReq := 1, statMs := 1000, buckets := 0, maxRt := 0, th2 := 2, probe := 0 } })] "o"
+  have := h [OOp.loadRes "o" (some { pct2 := 1, recMs := 0, inner := some { id := "", res := "o", strategy := 2, retryMs := 1000, minReq := 1, statMs := 1000, buckets := 0, maxRt := 0, th := 2 * thQ, probe := 0 } }),
+             OOp.loadRes "o" (some { pct2 := 3, recMs := 0, inner := some { id := "", res := "o", strategy := 2, retryMs := 1000, minReq := 1, statMs := 1000, buckets := 0, maxRt := 0, th := 2 * thQ, probe := 0 } })] "o"
   revert this
   decide
 
